@@ -193,6 +193,9 @@ class Real:
         self.ap: Optional[dict] = None
         # pairs of call sites (abstract ids) for which the constructor returned the SAME node object
         self.merged: list[tuple[int, int]] = []
+        # body slots that were handed a callable but hold a Graph object another slot already holds /
+        # whose callable was not called for them: (control kind, slot, callable name, calls made, slots)
+        self.shared_bodies: list[tuple] = []
 
 
 def _name_outputs(node, nid: int, is_arg: bool):
@@ -236,7 +239,7 @@ def _custom_classes():
 
 
 # operator kinds per abstract kind: the Builder must place a node by its uses, never by what it is
-N_VARIANTS = {"const": 5, "neg": 6, "add": 5, "sum": 5, "less": 3}
+N_VARIANTS = {"const": 5, "neg": 9, "add": 6, "sum": 5, "less": 3}
 
 
 def make_value(op, _graph, kind: str, ins: list, nid: int, val=None, pal=None) -> list:
@@ -264,6 +267,17 @@ def make_value(op, _graph, kind: str, ins: list, nid: int, val=None, pal=None) -
         return [op.const(val)]  # a plain Python bool / float literal
     if kind == "castf":
         return [op.cast(ins[0], to=np.float32)]
+    if kind in ("intro1", "ucast", "ureshape") or (kind == "neg" and v in (6, 7, 8)):
+        # user-level internal operators (`spox._internal_op`): `_Introduce` nodes like the per-graph
+        # sources, but made by the program - ordinary vertices for placement
+        from spox import _internal_op as iop
+
+        which = kind if kind != "neg" else ("intro1", "ucast", "ureshape")[v - 6]
+        if which == "intro1":
+            return [iop.intro(ins[0])]
+        if which == "ucast":
+            return [iop.unsafe_cast(ins[0], _types()[F])]
+        return [iop.unsafe_reshape(ins[0], (1,))]
     if kind == "neg":
         if v == 1:
             return [op.abs(ins[0])]
@@ -289,6 +303,10 @@ def make_value(op, _graph, kind: str, ins: list, nid: int, val=None, pal=None) -
             return [C(C.Attributes(), C.Inputs(a=ins[0], b=ins[1])).outputs.y]
         if v == 4:
             return [op.max([ins[0], ins[1]])]
+        if v == 5:
+            from spox import _internal_op as iop
+
+            return list(iop.intros(ins[0], ins[1]))  # one node, two Identity NodeProtos
         return [op.add(ins[0], ins[1])]
     if kind == "sum":
         if v == 1:
@@ -310,7 +328,8 @@ def make_value(op, _graph, kind: str, ins: list, nid: int, val=None, pal=None) -
     raise ValueError(kind)
 
 
-_VAL_TYPES = {"const": F, "init": F, "consti": I, "neg": F, "add": F, "sum": F, "less": B, "castf": "s"}
+_VAL_TYPES = {"const": F, "init": F, "consti": I, "neg": F, "add": F, "sum": F, "less": B, "castf": "s",
+              "intro1": F, "ucast": F, "ureshape": F}
 
 
 def realise_lowlevel(ap: dict, name_vars: bool = True, pal=None) -> Real:
@@ -337,7 +356,7 @@ def realise_lowlevel(ap: dict, name_vars: bool = True, pal=None) -> Real:
             ins = [outs[i][0] for i in nd["i"]]
             if k == "arg":
                 vs = [spox.argument(ty[nd["ty"]])]
-            elif k in ("const", "init", "consti", "pconst", "castf", "neg", "add", "sum", "less"):
+            elif k in ("const", "init", "consti", "pconst", "castf", "neg", "add", "sum", "less", "intro1", "ucast", "ureshape"):
                 vs = make_value(op, _graph, k, ins, nid, nd.get("val"), pal)
             elif k == "if":
                 ge, gt = graph(nd["s"][0]), graph(nd["s"][1])
@@ -421,10 +440,114 @@ def realise_script(script: dict, name_vars: bool = True, pal=None, name_offset: 
         R.graph_id[gr] = gid
         return gid
 
+    fns: dict[str, Any] = {}      # name -> the ONE callable object of that name
+    calls_ctx: list[list] = []   # innermost call site: [(argument ids, result ids)] per invocation
+    ctrl_ids: list[int] = []     # ids of the control nodes made through callables, in order
+    cell: list = [None]          # a mutable capture: callables read it at call time
+
+    def define(name, form, block, res):
+        """One Python callable object per `def` statement; every body slot it is handed to must call it."""
+        import functools
+
+        def fn(*args):
+            arg_ids = [reg(a._op, "arg", I if k == 0 else (B if k == 1 else F), [], [], is_arg=True) for k, a in enumerate(args)]
+            loc: list[int] = []
+
+            def rs(r):
+                if isinstance(r, int):
+                    return r
+                if r[0] == "L":
+                    return loc[r[1]]
+                if r[0] == "A":
+                    return arg_ids[r[1]]
+                if r[0] == "V":
+                    return cell[0]
+                raise ScriptError(str(r))
+
+            for st in block:
+                refs = [rs(r) for r in st[2]]
+                v = make_value(op, _graph, st[1], [box[r] for r in refs], len(box), None, pal)[0]
+                loc.append(reg(v._op, st[1], _VAL_TYPES[st[1]], refs, []))
+            res_ids = [rs(r) for r in res]
+            if args:
+                res_ids = [arg_ids[1]] + res_ids  # a Loop body hands its condition on
+            calls_ctx[-1].append((arg_ids, res_ids))
+            return [box[r] for r in res_ids]
+
+        if form == "lambda":
+            obj = lambda *a: fn(*a)  # noqa: E731 - a lambda stored in a variable
+        elif form == "method":
+            class Holder:
+                def step(self, *a):
+                    return fn(*a)
+
+            holder = Holder()
+            obj = holder.step  # ONE bound-method object, reused
+        elif form == "partial":
+            def fn2(_tag, *a):
+                return fn(*a)
+
+            obj = functools.partial(fn2, "tag")
+        else:
+            obj = fn
+        fns[name] = obj
+
+    def slot_graph(kind, k, name, gobj, rec, nslots):
+        """The abstract graph id of body slot `k`: a fresh one from the k-th invocation of the callable, or -
+        when the slot holds a Graph object that is already known / the callable was not called for it -
+        the known one (the program then has ONE graph where it handed a callable to each slot)."""
+        if gobj in R.graph_id:
+            R.shared_bodies.append((kind, k, name, len(rec), nslots))
+            return R.graph_id[gobj]
+        if not rec:
+            raise ScriptError("callable never called and Graph unknown")
+        if k >= len(rec):
+            R.shared_bodies.append((kind, k, name, len(rec), nslots))
+        a, r_ = rec[min(k, len(rec) - 1)]
+        return reg_graph(gobj, a, r_)
+
+    def gref(r):
+        if isinstance(r, int):
+            return r if r >= 0 else len(box) + r  # -1 = the value made last
+        return ctrl_ids[r[1]] if r[0] == "C" else r
+
     def run_block(block):
         for st in block:
-            if st[0] == "val":
-                kind, refs = st[1], st[2]
+            if st[0] == "def":
+                define(st[1], st[2], st[3], st[4])
+            elif st[0] == "setcell":
+                cell[0] = gref(st[1])
+            elif st[0] == "ifc":
+                _, cref, en, tn = st
+                rec: list = []
+                calls_ctx.append(rec)
+                try:
+                    outs = op_for(op, pal, len(box)).if_(box[gref(cref)], else_branch=fns[en], then_branch=fns[tn])
+                finally:
+                    calls_ctx.pop()
+                node = outs[0]._op
+                s0 = slot_graph("if", 0, en, node.attrs.else_branch.value, rec, 2)
+                s1 = slot_graph("if", 1, tn, node.attrs.then_branch.value, rec, 2)
+                ctrl_ids.append(reg(node, "if", F, [gref(cref)], [s0, s1]))
+            elif st[0] == "loopc":
+                _, init, name, mc = st
+                init = [gref(r) for r in init]
+                mref = mc.get("m")
+                rec = []
+                calls_ctx.append(rec)
+                try:
+                    outs = op_for(op, pal, len(box), loop=True).loop(
+                        box[mref] if mref is not None else None, None, v_initial=[box[r] for r in init], body=fns[name])
+                finally:
+                    calls_ctx.pop()
+                node = outs[0]._op
+                s0 = slot_graph("loop", 0, name, node.attrs.body.value, rec, 1)
+                lid = reg(node, "loop", F, ([mref] if mref is not None else []) + list(init), [s0])
+                ap["nodes"][lid]["m"] = mref is not None
+                ap["nodes"][lid]["c"] = False
+                ctrl_ids.append(lid)
+            elif st[0] == "val":
+                kind, refs = st[1], [gref(r) for r in st[2]]
                 ins = [box[r] for r in refs]
                 val = st[3] if len(st) > 3 else None
                 if kind == "pconst":
@@ -489,7 +612,7 @@ def realise_script(script: dict, name_vars: bool = True, pal=None, name_offset: 
         reg(x._op, "arg", F, [], [], is_arg=True)
         reg(c._op, "arg", B, [], [], is_arg=True)
         run_block(script["main"])
-        res = script["res"]
+        res = [gref(r) for r in script["res"]]
         ap["graphs"][0]["res"] = list(res)
         R.main = _graph.results(**{f"out{k}": box[r] for k, r in enumerate(res)}).with_arguments(x, c)
         R.graphs[0] = R.main
@@ -554,6 +677,8 @@ def trace_from_proto(ap: dict, model) -> list:
             nids = {int(m.group(1)) for m in (_VNAME.match(nm) for nm in pn.output if nm) if m}
             if nids:
                 (nid,) = nids
+                if trace[-1] == ["emit", nid] and not any(a.type == onnx.AttributeProto.GRAPH for a in pn.attribute):
+                    continue  # the further Identity NodeProtos of one `_Introduce` node
                 trace.append(["emit", nid])
                 last_src = False
                 subs = [a.g for a in pn.attribute if a.type == onnx.AttributeProto.GRAPH]
@@ -751,7 +876,7 @@ def model_facets(m: dict) -> dict:
 
 # --------------------------------------------------------------------------- model-free oracle on the ModelProto
 
-_VNAME = re.compile(r"^v(\d+)(?:_\d+)?$")
+_VNAME = re.compile(r"^v(\d+)(?:_(\d+))?$")
 _ANAME = re.compile(r"^a(\d+)$")
 
 
@@ -765,6 +890,7 @@ def proto_facts(model) -> dict:
     users: dict[str, list[tuple]] = {}  # value name -> paths of consuming NodeProtos
     defined: dict[str, tuple] = {}  # value name -> path where it is defined
     node_inputs: list[tuple] = []  # (path, [input names], [output names], [body paths])
+    per_out: dict[tuple, list[tuple]] = {}  # (abstract id, output index) -> paths (an `_Introduce` node is several NodeProtos)
 
     def walk(gp, path):
         for vi in gp.input:
@@ -788,8 +914,7 @@ def proto_facts(model) -> dict:
                     m = _VNAME.match(nm)
                     if m:
                         ids.add(int(m.group(1)))
-            for i in ids:
-                emitted.setdefault(i, []).append(path)
+                        per_out.setdefault((int(m.group(1)), m.group(2)), []).append(path)
             bodies = []
             for a in pn.attribute:
                 if a.type == onnx.AttributeProto.GRAPH:
@@ -799,6 +924,12 @@ def proto_facts(model) -> dict:
             node_inputs.append((path, [n for n in pn.input if n], [n for n in pn.output if n], bodies))
 
     walk(model.graph, ())
+    for (i, _k), ps in sorted(per_out.items(), key=lambda t: (t[0][0], t[0][1] or "")):
+        cur = emitted.get(i)
+        if cur is None or len(ps) > len(cur):
+            emitted[i] = list(ps)
+        elif len(ps) == len(cur) == 1 and ps != cur:
+            emitted[i] = cur + ps  # the parts of one application sit in different graphs
     return {"emitted": emitted, "args": args, "users": users, "defined": defined, "nodes": node_inputs}
 
 
